@@ -657,6 +657,24 @@ void t_reverse_iterator(Ctx& c)
     k_reverse_iterator<KRa>(c);
 }
 
+
+// ---------------------------------------------------------------- etl::swap (objects; arrays: C06_probe)
+void t_swap(Ctx& c)
+{
+    std::size_t const n = c.a.size();
+    if (n == 2) {
+        Trial t(c, "object", "swap(a,b)", Pres::exact, "", 1, "-");
+        Range<El> r(c.a, Pres::exact, true);
+        t.call([&] { etl::swap(r.lo[0], r.lo[1]); });
+        t.seq("objects", r.get(), Seq{c.a[1], c.a[0]});
+        t.done();
+        Trial t2(c, "object", "swap(a,a)", Pres::exact, "self", 2, "-");
+        Range<El> r2(c.a, Pres::exact, true);
+        t2.call([&] { etl::swap(r2.lo[0], r2.lo[0]); });
+        t2.seq("objects", r2.get(), c.a);
+        t2.done();
+    }
+}
 #endif
 
 Test const kTests[] = {
@@ -673,6 +691,7 @@ Test const kTests[] = {
     {"inplace_bidi", t_inplace_bidi},
     {"inplace_rev", t_inplace_rev},
     {"reverse_iterator", t_reverse_iterator},
+    {"swap", t_swap},
 #endif
 };
 std::size_t const kNumTests = sizeof(kTests) / sizeof(kTests[0]);
